@@ -286,7 +286,7 @@ def engine_core(prop, tier, seed, work):
 
 # ------------------------------------------------------------------------------- LoopCore model engines
 MODEL_CFGS = {
-    "C03": ["reuse"], "C04": ["chan"], "C10": ["exec"], "C12": ["timers"],
+    "C03": ["reuse"], "C04": ["chan"], "C10": ["exec", "stream"], "C12": ["timers"],
     "C01": ["reuse", "edge"], "C02": ["edge", "post"], "C05": ["timers"], "C06": ["reuse", "post"],
     "C07": ["edge", "timers"], "C08": ["drop", "idle"], "C09": ["post", "life"], "C13": ["idle"],
     "C14": ["life", "synth"], "C15": ["faults", "life"], "C16": ["edge", "reuse"],
